@@ -553,11 +553,82 @@ def renamed_members(ctx, only=None):
                          "%s: the class got attributes it never defined: %r" % (label, stray))
 
 
+def undecorated_middle_cases(ctx, only=None):
+    """A class with an invariant, an UNDECORATED plain sub-class that adds public members, and a leaf below it that is set
+    up for invariants again (decorated with a further invariant, or mixing in icontract.DBC): the members the leaf
+    inherits from the middle class are public operations of the leaf - its invariants hold around them."""
+    import icontract
+
+    for leaf_kind in ("decorated again", "mixes in DBC"):
+        for base_kind in ("decorated", "DBC"):
+            if base_kind == "DBC" and leaf_kind == "mixes in DBC":
+                continue  # (a DBC base makes every sub-class a DBC class: nothing is left undecorated)
+            if base_kind == "DBC":
+                continue
+            for member in ("method", "property", "special method"):
+                if only and only != [leaf_kind, member]:
+                    continue
+                seen, bodies = [], []
+
+                def inv(self):
+                    seen.append("inv")
+                    return self.__dict__.get("v", 1) > 0
+
+                class Base:
+                    def __init__(self):
+                        self.v = 1
+
+                    def b(self):
+                        return 0
+                Base = icontract.invariant(inv)(Base)
+
+                class Mid(Base):
+                    def m(self):
+                        bodies.append("m")
+                        return 7
+
+                    @property
+                    def p(self):
+                        bodies.append("p")
+                        return 7
+
+                    def __len__(self):
+                        bodies.append("len")
+                        return 7
+
+                if leaf_kind == "decorated again":
+                    Leaf = icontract.invariant(lambda self: True)(type("Leaf", (Mid,), {}))
+                else:
+                    Leaf = type(icontract.DBC)("Leaf", (Mid, icontract.DBC), {})
+                use = {"method": lambda o: o.m(), "property": lambda o: o.p, "special method": lambda o: len(o)}[member]
+                label = "leaf %s, %s of the undecorated middle class" % (leaf_kind, member)
+                for what, corrupt, want, want_inv, want_bodies in (("valid object", False, "ok", 2, 1), ("corrupted object", True, "violation", 1, 0)):
+                    o = Leaf()
+                    if corrupt:
+                        o.__dict__["v"] = -1
+                    del seen[:], bodies[:]
+                    try:
+                        use(o)
+                        got = "ok"
+                    except icontract.ViolationError:
+                        got = "violation"
+                    except BaseException as e:  # noqa
+                        got = "%s: %s" % (type(e).__name__, e)
+                    ctx.case(["undecorated-middle", leaf_kind, member, what], True, sample={"directed": label, "on": what, "outcome": got})
+                    ctx.count("directed:undecorated-middle-cases")
+                    if got != want or len(seen) != want_inv or len(bodies) != want_bodies:
+                        ctx.fail("undecorated-middle|%s|%s" % (leaf_kind.split()[0], member.split()[0]), {"undecorated_middle": [leaf_kind, member]},
+                                 "%s, %s: expected %s with %d evaluation(s) of the base invariant and %d body run(s), got %s with %d "
+                                 "and %d" % (label, what, want, want_inv, want_bodies, got, len(seen), len(bodies)))
+                        break
+
+
 def directed(ctx, only=None):
     D.run_one(ctx, dict(D19_CASE), judge, nontrivial=lambda *a: True)
     if only is None:
         builtin_bases(ctx)
         renamed_members(ctx)
+        undecorated_middle_cases(ctx)
     if only is None:
         n = 0
         for case in constructor_matrix():
@@ -572,6 +643,11 @@ def directed(ctx, only=None):
 
 
 def replay(ctx, case):
+    if case.get("undecorated_middle"):
+        before = ctx.evaluations
+        undecorated_middle_cases(ctx, only=case["undecorated_middle"])
+        ctx.evaluations = before + 1
+        return
     if case.get("renamed_member"):
         before = ctx.evaluations
         renamed_members(ctx, only=case["renamed_member"])
